@@ -45,6 +45,8 @@ def generate(tier, seed):
     n_s = 30 if tier == "quick" else 1500
     for k in range(n_s):
         cases.append({"kind": "sampled", "k": k, "n": 50})
+    for k in range(20 if tier == "quick" else 1500):
+        cases.append({"kind": "multi", "k": k, "n": 8})
     return cases
 
 
@@ -229,13 +231,73 @@ def one(res, ctx, root, rng, t, forced_style, idx, sample=False):
         res.sample = {"desc": desc, "args": args, "written": open(annot.carrier_of(f), encoding="utf-8", errors="replace").read()[:400]}
 
 
+def multi(res, ctx, root, rng, idx):
+    """One invocation over several files (named or found with --recursive), each with its own earlier information, some with
+    a FILE.license sidecar: every file must read back as *its own* earlier information plus the request - nothing may leak
+    from one file of the run into another, and the header must land where the linter looks for it."""
+    styles = ctx.state["styles"]
+    d = root / f"m{idx}"
+    d.mkdir()
+    kinds = [("a.py", "python"), ("b.c", "c"), ("c.html", "html"), ("d.sh", "python"), ("e.rs", "cpp"), ("f.tex", "tex")]
+    rng.shuffle(kinds)
+    files = []
+    for j, (name, short) in enumerate(kinds[: rng.randint(2, 5)]):
+        f = d / name
+        st = styles[short]
+        prior = rng.choice(["none", "header", "sidecar", "header"])
+        pc, pl = set(), set()
+        if prior == "header":
+            pc, pl = {f"SPDX-FileCopyrightText: 20{10 + j} Own Holder {j}"}, {["ISC", "0BSD", "Zlib", "MIT-0", "BSL-1.0"][j]}
+            f.write_text(trees.comment_block(st, sorted(pc) + [""] + [f"SPDX-License-Identifier: {x}" for x in pl]) + "\n\nK code\n")
+        else:
+            f.write_text("K code\n")
+            if prior == "sidecar":
+                pc, pl = {f"SPDX-FileCopyrightText: 20{10 + j} Sidecar Holder {j}"}, {"Unlicense"}
+                (d / (name + ".license")).write_text("\n".join(sorted(pc)) + "\nSPDX-License-Identifier: Unlicense\n")
+        files.append((f, prior, pc, pl))
+    holder = rng.choice(PLAIN_HOLDERS)
+    lic = rng.choice(LICS)
+    recursive = rng.random() < 0.5
+    cwd, gargs, fargs = annot.place(rng, root, [d] if recursive else [f for f, *_ in files])
+    args = ["-c", holder, "-l", lic, "--year", "2022"] + (["--merge-copyrights"] if rng.random() < 0.2 else [])
+    r = run_cli(gargs + ["annotate"] + args + (["-r"] if recursive else []) + fargs, cwd=cwd)
+    res.n += 1
+    desc = {"files": [(f.name, p) for f, p, *_ in files], "recursive": recursive}
+    if r.escaped or r.exit_code != 0:
+        res.violation("plain-multi-file-request-refused", f"annotate exit {r.exit_code} {r.exc_type} ({desc})", **r.brief())
+        return
+    after, rr = annot.read_back(root)
+    for f, prior, pc, pl in files:
+        rel = os.path.relpath(f, root)
+        got = (after or {}).get(rel)
+        if got is None:
+            res.violation("annotated-file-not-linted", f"{rel} not reported by lint ({desc})")
+            return
+        want_c = set(pc) | {notice.build("spdx", "2022", holder)}
+        want_l = set(pl) | {lic}
+        if got["cop"] != want_c or got["lic"] != want_l:
+            key = "multi-file:information-leaks-between-files" if (got["cop"] - want_c or got["lic"] - want_l) else \
+                ("multi-file:header-not-where-the-linter-reads" if prior == "sidecar" else "multi-file:read-back-differs")
+            res.violation(key, f"{rel} ({prior}): lint reads {sorted(got['cop'])} / {sorted(got['lic'])}, expected {sorted(want_c)} / {sorted(want_l)} ({desc})",
+                          args=args)
+            return
+    res.sigs.add(short_hash("multi", sorted(map(str, desc["files"])), recursive, holder, lic))
+    res.cell("multi:" + ("recursive" if recursive else "named"))
+    for _f, prior, *_ in files:
+        res.cell("multi-prior:" + prior)
+
+
 def run_case(case, ctx):
     res = Res()
     root = ctx.scratch / f"c07-{case['kind']}-{case.get('chunk', case.get('k'))}-{case.get('rep', 0)}"
     root.mkdir()
     annot.install_templates(root)
     try:
-        if case["kind"] == "types":
+        if case["kind"] == "multi":
+            rng = rng_for(ctx.seed, "c07m", case["k"])
+            for i in range(case["n"]):
+                multi(res, ctx, root, rng, i)
+        elif case["kind"] == "types":
             rng = rng_for(ctx.seed, "c07t", case["chunk"], case["rep"])
             for i, t in enumerate(ctx.state["types"][case["chunk"]::case["of"]]):
                 one(res, ctx, root, rng, t, None, i, sample=(case["chunk"] == 0 and case["rep"] == 0 and i == 1))
